@@ -337,6 +337,8 @@ pub struct Model {
     /// the handler invocation with this 0-based index fails
     pub fault_at: Option<usize>,
     pub loggers: Loggers,
+    /// handler id -> (function name, handler id): invoking the handler registers that function
+    pub side_effects: BTreeMap<u32, (String, u32)>,
 }
 
 type Res = Result<V, Stop>;
@@ -357,6 +359,9 @@ impl Model {
 
     fn logger(&mut self, id: u32, args: Vec<V>, ret: &V) -> Res {
         self.log.push((id, args.clone()));
+        if let Some((name, new_id)) = self.side_effects.get(&id).cloned() {
+            self.loggers.functions.insert(name, (new_id, V::None));
+        }
         if self.fault_at == Some(self.log.len() - 1) {
             return Err(Stop::Fault);
         }
